@@ -3,3 +3,7 @@ import CheetahModel.Properties.C12
 #print axioms C12.split_forwards_dtype
 #print axioms C12.f32_speed_of_light_error
 #print axioms C12.f32_roundtrip_tenth
+#print axioms C12.f64_in_f64_out
+#print axioms C12.f64_independent_of_default
+#print axioms C12.promotion_commutes
+#print axioms C12.promotion_traps
